@@ -7,27 +7,32 @@
                     every count positive, CountFingerprint counts are integers; bit: no counts dict.
      fits_dtype a : a CountFingerprint's counts are <= count_dtype_max (regenerated from COUNT_FP_DTYPE: uint16).
      unit_counts a: every stored count is 1 (what a bit string / RDKit vector can express).
-   What a format carries: every from_* takes level and name only from its keywords (`level_arg None` = -1,
-   `name_arg`); set_meta a lv nm is a with that level and name.  Passing a's own level and name gives a back. *)
+   What a format carries.  Index array, dense / CSR vector, bit string and RDKit vector carry type (through the class
+   used to read), length, set bits and counts only: every from_* takes level and name from its keywords alone
+   (`level_arg None` = -1, `name_arg`).  The `*_rt_content` theorems therefore conclude `set_meta a lv' nm'` - a with the
+   level and name THE CALLER passed - and the `*_rt_resupplied` corollaries say that passing a's own level and name
+   again gives a itself.  Pickle and files carry level, name and props themselves (pickle_rt, file_rt, file_carries_meta).
+   pickle and the file layer (smart_open, gzip, bz2) are parameters: the theorems about them take
+   `forall s, pkl_loads (pkl_dumps s) = s` and `forall e l, file_read e (file_write e l) = l` as explicit hypotheses. *)
 From Coq Require Import QArith Ascii.
 From E3FP Require Import Base.Prelude Base.ZSet Model.Fprint Model.FprintIO Gen.Constants
   Proofs.FprintEq Proofs.FprintConv Proofs.FprintIO.
 Open Scope Z_scope.
 
-Theorem indices_rt : forall a lv nm, wf_fp a ->
+Theorem indices_rt_content : forall a lv nm, wf_fp a ->
   from_indices_of a lv nm = Ok (set_meta a (level_arg lv) (name_arg nm)).
 Proof. exact indices_rt. Qed.
-Print Assumptions indices_rt.
+Print Assumptions indices_rt_content.
 
-Theorem dense_vector_rt : forall a lv nm, wf_fp a -> fits_dtype a ->
+Theorem dense_vector_rt_content : forall a lv nm, wf_fp a -> fits_dtype a ->
   rbind (to_dense None a) (fun v => from_dense (fkind a) v None lv nm) = Ok (set_meta a (level_arg lv) (name_arg nm)).
 Proof. exact dense_vector_rt. Qed.
-Print Assumptions dense_vector_rt.
+Print Assumptions dense_vector_rt_content.
 
-Theorem csr_vector_rt : forall a lv nm, wf_fp a -> fits_dtype a ->
+Theorem csr_vector_rt_content : forall a lv nm, wf_fp a -> fits_dtype a ->
   rbind (to_csr None a) (fun m => from_csr (fkind a) m None lv nm) = Ok (set_meta a (level_arg lv) (name_arg nm)).
 Proof. exact csr_vector_rt. Qed.
-Print Assumptions csr_vector_rt.
+Print Assumptions csr_vector_rt_content.
 
 (* reading a vector with another class is the conversion to that kind (Fingerprint.from_vector on a count vector
    gives the support, CountFingerprint.from_vector on a float vector truncates, ...) *)
@@ -47,10 +52,10 @@ Theorem count_dtype_limit : forall a, wf_fp a -> fkind a = KCount ->
 Proof. exact count_dtype_limit. Qed.
 Print Assumptions count_dtype_limit.
 
-Theorem bitstring_rt : forall a lv nm, wf_fp a -> unit_counts a ->
+Theorem bitstring_rt_content : forall a lv nm, wf_fp a -> unit_counts a ->
   rbind (to_bitstring a) (fun s => from_bitstring (fkind a) s None lv nm) = Ok (set_meta a (level_arg lv) (name_arg nm)).
 Proof. exact bitstring_rt. Qed.
-Print Assumptions bitstring_rt.
+Print Assumptions bitstring_rt_content.
 
 (* in general the bit string carries the support only *)
 Theorem bitstring_reads_unit : forall k a lv nm, wf_fp a ->
@@ -62,15 +67,46 @@ Theorem bitstring_length : forall a s, wf_fp a -> to_bitstring a = Ok s -> Z.of_
 Proof. exact to_bitstring_length. Qed.
 Print Assumptions bitstring_length.
 
-Theorem rdkit_rt : forall a lv nm, wf_fp a -> fbits a <= rdkit_max -> unit_counts a ->
+Theorem rdkit_rt_content : forall a lv nm, wf_fp a -> fbits a <= rdkit_max -> unit_counts a ->
   rbind (to_rdkit a) (fun r => from_rdkit (fkind a) r None lv nm) = Ok (set_meta a (level_arg lv) (name_arg nm)).
 Proof. exact rdkit_rt. Qed.
-Print Assumptions rdkit_rt.
+Print Assumptions rdkit_rt_content.
 
 Theorem rdkit_reads_unit : forall k a lv nm, wf_fp a -> fbits a <= rdkit_max ->
   rbind (to_rdkit a) (fun r => from_rdkit k r None lv nm) = Ok (set_meta (unit_fp k a) (level_arg lv) (name_arg nm)).
 Proof. exact rdkit_roundtrip_unit. Qed.
 Print Assumptions rdkit_reads_unit.
+
+(* with the caller passing the fingerprint's own level and (non-empty) name again, the fingerprint itself comes back *)
+Theorem indices_rt_resupplied : forall a, wf_fp a -> fname a <> Some EmptyString ->
+  from_indices_of a (Some (flevel a)) (fname a) = Ok a.
+Proof. exact indices_rt_resupplied. Qed.
+Print Assumptions indices_rt_resupplied.
+
+Theorem dense_vector_rt_resupplied : forall a, wf_fp a -> fits_dtype a -> fname a <> Some EmptyString ->
+  rbind (to_dense None a) (fun v => from_dense (fkind a) v None (Some (flevel a)) (fname a)) = Ok a.
+Proof. exact dense_vector_rt_resupplied. Qed.
+Print Assumptions dense_vector_rt_resupplied.
+
+Theorem csr_vector_rt_resupplied : forall a, wf_fp a -> fits_dtype a -> fname a <> Some EmptyString ->
+  rbind (to_csr None a) (fun m => from_csr (fkind a) m None (Some (flevel a)) (fname a)) = Ok a.
+Proof. exact csr_vector_rt_resupplied. Qed.
+Print Assumptions csr_vector_rt_resupplied.
+
+Theorem bitstring_rt_resupplied : forall a, wf_fp a -> unit_counts a -> fname a <> Some EmptyString ->
+  rbind (to_bitstring a) (fun s => from_bitstring (fkind a) s None (Some (flevel a)) (fname a)) = Ok a.
+Proof. exact bitstring_rt_resupplied. Qed.
+Print Assumptions bitstring_rt_resupplied.
+
+Theorem rdkit_rt_resupplied : forall a, wf_fp a -> fbits a <= rdkit_max -> unit_counts a -> fname a <> Some EmptyString ->
+  rbind (to_rdkit a) (fun r => from_rdkit (fkind a) r None (Some (flevel a)) (fname a)) = Ok a.
+Proof. exact rdkit_rt_resupplied. Qed.
+Print Assumptions rdkit_rt_resupplied.
+
+(* a level that is not passed is not carried: it comes back as -1 *)
+Theorem level_not_carried : forall a nm, flevel (set_meta a (level_arg None) nm) = Some (-1).
+Proof. exact level_not_carried. Qed.
+Print Assumptions level_not_carried.
 
 Theorem rdkit_max_is : rdkit_max = 2 ^ 31 - 1.
 Proof. exact (eq_refl rdkit_max). Qed.
@@ -94,27 +130,58 @@ Theorem rdkit_length_2_31_lost :
 Proof. exact rdkit_length_lost. Qed.
 Print Assumptions rdkit_length_2_31_lost.
 
-(* pickle (also copy / deepcopy, which go through __getstate__/__setstate__): the whole object incl. name and props *)
-Theorem pickle_rt : forall x, wf_fp (xfp x) -> pickle_roundtrip x = x.
-Proof. exact pickle_rt. Qed.
+(* pickle (also copy / deepcopy, which go through __getstate__/__setstate__) carries the whole object incl. level, name
+   and props.  ASSUMED about the pickle module, as a hypothesis: loads inverts dumps on state dictionaries. *)
+Theorem pickle_rt : forall (pbytes : Type) (pkl_dumps : pstate -> pbytes) (pkl_loads : pbytes -> pstate),
+  (forall s, pkl_loads (pkl_dumps s) = s) ->
+  forall x, wf_fp (xfp x) -> pickle_via pbytes pkl_dumps pkl_loads x = x.
+Proof. exact pickle_rt_via. Qed.
 Print Assumptions pickle_rt.
 
-Theorem pickle_keeps : forall x,
-  let y := pickle_roundtrip x in
+(* without well-formedness: everything but the index array is kept; count kinds rebuild it from the counts *)
+Theorem pickle_keeps : forall (pbytes : Type) (pkl_dumps : pstate -> pbytes) (pkl_loads : pbytes -> pstate),
+  (forall s, pkl_loads (pkl_dumps s) = s) ->
+  forall x, let y := pickle_via pbytes pkl_dumps pkl_loads x in
   fkind (xfp y) = fkind (xfp x) /\ fbits (xfp y) = fbits (xfp x) /\ flevel (xfp y) = flevel (xfp x) /\
   fcnt (xfp y) = fcnt (xfp x) /\ fname (xfp y) = fname (xfp x) /\ xprops y = xprops x /\
   fidx (xfp y) = match fkind (xfp x) with KBit => fidx (xfp x) | _ => usort (ckeys (fcnt (xfp x))) end.
-Proof. exact pickle_keeps. Qed.
+Proof. exact pickle_keeps_via. Qed.
 Print Assumptions pickle_keeps.
 
-(* files: save/load and savez/loadz, both values of update_structure (the three extensions differ by a byte codec) *)
-Theorem file_rt : forall u x, wf_fp (xfp x) -> file_roundtrip u x = Ok x.
-Proof. exact file_rt. Qed.
+(* files: save/load and savez/loadz, every extension e and both values u of update_structure.  ASSUMED, as
+   hypotheses: pickle as above, and reading a file written through smart_open (plain / gzip / bz2) returns the
+   written pickles in order. *)
+Theorem file_rt : forall (pbytes fbytes : Type) (pkl_dumps : pstate -> pbytes) (pkl_loads : pbytes -> pstate)
+    (file_write : file_ext -> list pbytes -> fbytes) (file_read : file_ext -> fbytes -> list pbytes),
+  (forall s, pkl_loads (pkl_dumps s) = s) -> (forall e l, file_read e (file_write e l) = l) ->
+  forall e u x, wf_fp (xfp x) ->
+  file_via pbytes fbytes pkl_dumps pkl_loads file_write file_read e u x = Ok (Some x).
+Proof. exact file_rt_via. Qed.
 Print Assumptions file_rt.
 
-Theorem filez_rt : forall u xs, (forall x, In x xs -> wf_fp (xfp x)) -> filez_roundtrip u xs = Ok xs.
-Proof. exact filez_rt. Qed.
+Theorem filez_rt : forall (pbytes fbytes : Type) (pkl_dumps : pstate -> pbytes) (pkl_loads : pbytes -> pstate)
+    (file_write : file_ext -> list pbytes -> fbytes) (file_read : file_ext -> fbytes -> list pbytes),
+  (forall s, pkl_loads (pkl_dumps s) = s) -> (forall e l, file_read e (file_write e l) = l) ->
+  forall e u xs, (forall x, In x xs -> wf_fp (xfp x)) ->
+  filez_via pbytes fbytes pkl_dumps pkl_loads file_write file_read e u xs = Ok xs.
+Proof. exact filez_rt_via. Qed.
 Print Assumptions filez_rt.
+
+Theorem file_carries_meta : forall (pbytes fbytes : Type) (pkl_dumps : pstate -> pbytes) (pkl_loads : pbytes -> pstate)
+    (file_write : file_ext -> list pbytes -> fbytes) (file_read : file_ext -> fbytes -> list pbytes),
+  (forall s, pkl_loads (pkl_dumps s) = s) -> (forall e l, file_read e (file_write e l) = l) ->
+  forall e u x y, wf_fp (xfp x) ->
+  file_via pbytes fbytes pkl_dumps pkl_loads file_write file_read e u x = Ok (Some y) ->
+  flevel (xfp y) = flevel (xfp x) /\ fname (xfp y) = fname (xfp x) /\ xprops y = xprops x.
+Proof. exact file_carries_meta. Qed.
+Print Assumptions file_carries_meta.
+
+(* the functions the correspondence evaluates are these at the identity codec *)
+Theorem evaluated_instance : forall u xs,
+  filez_via pstate (list pstate) (fun s => s) (fun s => s) (fun _ l => l) (fun _ l => l) XGz u xs = filez_roundtrip u xs /\
+  forall x, pickle_via pstate (fun s => s) (fun s => s) x = pickle_roundtrip x.
+Proof. exact (fun u xs => conj (filez_via_is pstate (list pstate) (fun s => s) (fun s => s) (fun _ l => l) (fun _ l => l) (fun s => eq_refl) (fun e l => eq_refl) XGz u xs) (fun x => eq_refl)). Qed.
+Print Assumptions evaluated_instance.
 
 (* non-vacuity *)
 Example hypotheses_satisfiable :
